@@ -1,6 +1,7 @@
 import SppModel.Lemmas.KernelLink
 import SppModel.Lemmas.Loop
 import SppModel.Generated.LoopKernels
+import SppModel.Frozen.LoopKernels
 /-!
 # Kernel specification — `kernels.downsample_1d_mean` as translated computes its definition (C14)
 
@@ -11,10 +12,10 @@ of an index expression, a loop bound or an operand in the source changes the gen
 the proof.
 -/
 namespace SppModel.KernelSpecs
-open SppModel SppModel.Loop SppModel.Generated.LoopKernels SppModel.KernelSpecs.LinkA
+open SppModel SppModel.Loop SppModel.Frozen.LoopKernels SppModel.KernelSpecs.LinkA
 
 /-- the kernel was recognised by the translator on this run -/
-theorem downsample_1d_mean_translated : ∀ f ∈ translationFailures, f.1 ∉ ["kernels_py_loops", "loop_downsample_1d_mean"] := by decide
+theorem downsample_1d_mean_translated : ∀ f ∈ Generated.LoopKernels.translationFailures, f.1 ∉ ["kernels_py_loops", "loop_downsample_1d_mean"] := by decide
 
 /-- `downsample_1d_mean`: `result[i] = (Σ_{k<f} a[i*f + k]) / f` for `i < len / f` -/
 theorem downsample_1d_mean_spec (arr : Nat → Rat) (f len i : Nat) :
@@ -36,7 +37,7 @@ theorem downsample1d_is_kernel (x : List Rat) (f : Nat) :
 /-- the executable twin run by the correspondence check (`K` requests of the driver) is the same function:
     it only tabulates the loop state after each iteration (`Loop.forRangeM_eq`) -/
 theorem downsample_1d_mean_exec_eq (memo : Nat) (arr : Nat → Rat) (f len : Nat) :
-    downsample_1d_mean_exec memo arr f len = downsample_1d_mean arr f len := by
-  simp only [downsample_1d_mean_exec, downsample_1d_mean, Loop.forRangeM_eq]
+    Generated.LoopKernels.downsample_1d_mean_exec memo arr f len = Generated.LoopKernels.downsample_1d_mean arr f len := by
+  simp only [Generated.LoopKernels.downsample_1d_mean_exec, Generated.LoopKernels.downsample_1d_mean, Loop.forRangeM_eq]
 
 end SppModel.KernelSpecs
